@@ -181,6 +181,7 @@ def check_call(ctx, tf, old, new):
             # float32 nodes / weights: the library's arithmetic is float32 (parameters and derived constants rounded as well)
             tol = tol + EPS32 * (1e5 * aJ + 30 * noise64 / np.finfo(float).eps)
             ctx.count("calls-with-float32-grid")
+        out["tol"] = tol
         decided = np.isfinite(tol) & (tol <= 1e-3 * aJ) & (aJ > 0) & np.isfinite(new.weights) & np.isfinite(w)
         out["decided"] = decided
         ctx.count("nodes-decided", int(decided.sum()))
